@@ -57,7 +57,7 @@ def check(run, prefix="O5"):
         o.check(g2 is not None, key + "|later-slot-parent-prev", "later slot: guarded by parent_slot == slot.prev()", c.span,
                 detail={"guards": K.show_atoms(prog, b, bb, ((s, fv),))})
         g3 = G.has_guard(prog, b, bb, pred="eq", polarity=True, fields=["voted_notar"], owner="votor::SlotState", assume=((s, fv),))
-        ok3 = g3 is not None and any(K.mentions_field(x, "parent") or K.mentions_name(x, "parent_hash") or K.mentions_name(x, "parent") for x in g3[1])
+        ok3 = g3 is not None and any(K.mentions_field(x, "parent", "BlockInfo") and K.mentions_arg(b, x, 3) for x in g3[1])
         o.check(bool(ok3), key + "|later-slot-voted-parent", "later slot: guarded by voted_notar(parent_slot) == Some(parent_hash)", c.span)
         # followed by flag writes
         w1 = [x[0] for x in K.writes_of_field(b, "votor::SlotState", "voted", const=1)]
@@ -240,6 +240,13 @@ def check(run, prefix="O5"):
                 if fn.endswith("Votor::new"):
                     ok = True
                 o.check(ok, "highest_final_cert_slot|monotone|%s" % fshort(fn), "highest_final_cert_slot = max(old, cert.slot())", sp, {"value": mir.show(t)})
+
+    # set_timeouts(slot) asserts a window start: every caller passes one
+    for c, key in K.ordinal_keys(prog.callers_of(VOTOR + "Votor::set_timeouts"), lambda c: "%s|set_timeouts" % fshort(c.body.defpath)):
+        t = c.body.operand_term(c.args[1])
+        ok = K.mentions_call(t, "first_slot_in_window") or (K.peel(t)[0] == "call" and K.peel(t)[1].endswith("Slot::new") and K.const_eval(K.peel(t)[2][0]) == 0) or \
+            K.mentions(t, lambda x: x[0] == "variant" and x[2] == "ParentReady")
+        o.check(bool(ok), key + "|window-start", "set_timeouts is called with a window-start slot (first_slot_in_window(), a ParentReady slot, or slot 0)", c.span, {"arg": mir.show(t)[:100]})
 
     # ------------------------------------------------------------------ O5.8 signing identity
     o = run.ob(P + ".8", "every vote is signed with the node's own key and index",
